@@ -22,25 +22,27 @@ Definition mc_beq (a b : mcirc) : bool :=
   Nat.eqb (mnq a) (mnq b) && Nat.eqb (mnc a) (mnc b) && regs_beq (mcregs a) (mcregs b) &&
   circ_beq (mdata a) (mdata b).
 
-(* [impl] is [model] plus extra Reset instructions on qubit 0 (both lists otherwise equal, in order) *)
-Fixpoint extra_resets0 (fuel : nat) (impl model : circ) : bool :=
-  match fuel with
-  | O => false
-  | S f =>
-      match impl, model with
-      | [], [] => true
-      | x :: ri, y :: rm =>
-          (instr_beq x y && extra_resets0 f ri rm) ||
-          (is_reset x && list_beq Nat.eqb (iqs x) [0] && extra_resets0 f ri model)
-      | x :: ri, [] => is_reset x && list_beq Nat.eqb (iqs x) [0] && extra_resets0 f ri []
-      | [], _ :: _ => false
+(* [impl] is [model] plus extra Reset instructions on qubit 0 (both lists otherwise equal, in order).
+   Greedy and deterministic (an `if`, not `||`: vm_compute is call-by-value): equal heads are matched, otherwise the
+   implementation's head must be a reset on qubit 0.  Greedy loses nothing: all deletable instructions are the same
+   instruction Reset[0], so matching the first of two equal candidates is as good as matching the second. *)
+Definition reset0 (x : instr) : bool := is_reset x && list_beq Nat.eqb (iqs x) [0].
+
+Fixpoint extra_resets0 (impl model : circ) : bool :=
+  match impl with
+  | [] => match model with [] => true | _ :: _ => false end
+  | x :: ri =>
+      match model with
+      | y :: rm => if instr_beq x y then extra_resets0 ri rm
+                   else if reset0 x then extra_resets0 ri model else false
+      | [] => if reset0 x then extra_resets0 ri [] else false
       end
   end.
 
 (* F2 tolerance: same circuit, except that the implementation may have kept resets on qubit 0 *)
 Definition mc_beq_f2 (model impl : mcirc) : bool :=
   Nat.eqb (mnq model) (mnq impl) && Nat.eqb (mnc model) (mnc impl) && regs_beq (mcregs model) (mcregs impl) &&
-  extra_resets0 (S (length (mdata impl) + length (mdata model))) (mdata impl) (mdata model).
+  extra_resets0 (mdata impl) (mdata model).
 
 (* coefficients: same length, same WeightType, |model - impl| <= tol *)
 Definition coeff_close (tol : Q) (m e : Q * wkind) : bool :=
